@@ -349,7 +349,10 @@ namespace occa {
       if (io::exists(dependency)) {
         // Check whether the dependency changed
         hash_t newDependencyHash = hashFile(dependency);
-        newKernelHash ^= newDependencyHash;
+        // Bind the contents to the path of the dependency: the XOR of bare content
+        // hashes cancels out when two dependencies have the same contents (the
+        // chain then cycles back to this hash) and ignores swapped contents
+        newKernelHash ^= occa::hash(dependency + ":" + newDependencyHash.getFullString());
 
         if (dependencyHash != newDependencyHash) {
           foundDependencyChanges = true;
